@@ -217,6 +217,8 @@ class FullStackSoapClient(SoapClient):
 
 
 def _deliver_raw(self: Network, wire: Wire) -> bytes:
+    self.n_delivered = getattr(self, 'n_delivered', 0) + 1
+    wire.dseq = self.n_delivered
     server = self.servers.get(wire.dst)
     if server is None:
         raise ConnectionRefusedError(f'no server at {wire.dst}')
